@@ -107,6 +107,12 @@ OneofShapes == <<
   Shape("x.interleaved", Desc(<<Leaf, Msg("Root", <<InOneof(Fld("BranchA", 1, "string"), "Grp"), InOneof(MsgF("BranchC", 2, "Leaf"), "Grp"),
         InOneof(Fld("BranchB", 3, "int32"), "Grp2"), InOneof(Fld("BranchD", 4, "string"), "Grp2"), Fld("Alpha", 5, "bool")>>, <<"Grp", "Grp2">>)>>),
         [BaseCfg EXCEPT !.sort = TRUE]),
+  \* the last / the first branch of a group excluded: the remaining branches stay exclusive
+  Shape("x.excl.last", Desc(<<Leaf, Msg("Root", <<InOneof(Fld("BranchA", 1, "string"), "Grp"), InOneof(MsgF("BranchB", 2, "Leaf"), "Grp"),
+        InOneof(Fld("BranchC", 3, "int32"), "Grp"), Fld("Str", 4, "string")>>, <<"Grp">>)>>), [BaseCfg EXCEPT !.exclude = <<"Root.BranchC">>]),
+  Shape("x.excl.first", Desc(<<Msg("Root", <<InOneof(Fld("BranchA", 1, "string"), "Grp"), InOneof(Fld("BranchB", 2, "bool"), "Grp"),
+        InOneof(Fld("BranchC", 3, "string"), "Grp2"), InOneof(Fld("BranchD", 4, "int32"), "Grp2")>>, <<"Grp", "Grp2">>)>>),
+        [BaseCfg EXCEPT !.exclude = <<"Root.BranchA", "Root.BranchD">>]),
   Shape("x.two", Desc(<<Msg("Root", <<InOneof(Fld("BranchA", 1, "string"), "Grp"), InOneof(Fld("BranchB", 2, "string"), "Grp"),
         InOneof(Fld("BranchC", 3, "int32"), "Grp2"), InOneof(Fld("BranchD", 4, "int32"), "Grp2")>>, <<"Grp", "Grp2">>)>>), BaseCfg) >>
 
